@@ -10,6 +10,7 @@ mod image;
 mod seglog;
 mod shards;
 mod iohook;
+mod leafupd;
 mod ovl;
 mod overflow;
 mod stress;
@@ -66,6 +67,7 @@ fn main() {
         "delta" => delta::run(seed, cases, &mut sink),
         "delta-log" => delta::run_log(seed, cases, &mut sink),
         "overflow" => overflow::run(seed, cases, &mut sink),
+        "leafupd" => leafupd::run(seed, cases, &mut sink),
         "core-pp" => core_pp::run(seed, cases, &mut sink),
         "core-mp" => core_mp::run(seed, cases, &mut sink),
         "core-mp-corpus" => {
